@@ -62,6 +62,8 @@ pub fn third_party() -> Result<String, String> {
 pub fn run(full: bool) -> Result<Vec<String>, String> {
     let mut out = vec![];
     out.push(r::selfcheck_internal(full)?);
+    crate::parse::selftest()?;
+    out.push("parsers (XML, SVG path, PNG/inflate) self-test ok".to_string());
     if full {
         out.push(third_party()?);
     }
